@@ -407,7 +407,7 @@ func (e *evalCtx) eval(t *node) (v val) {
 			return val{bad: "body index"}
 		}
 		opts := createOpts(e.p.jsonB[b], o)
-		// decodeCreateFileRequest (since c942d41a): without a flag in the query or at the top level of
+		// decodeCreateFileRequest (since bf7be12b): without a flag in the query or at the top level of
 		// the body the validateOpts member of the File document applies and is what gets stored
 		use := opts
 		if reflect.DeepEqual(*opts, ach.ValidateOpts{}) {
